@@ -27,18 +27,18 @@ type Delivery struct {
 	Region string `json:"region,omitempty"` // flip: id flags counts question body sigowner sighdr sigfixed signer signature
 	Frac   int    `json:"frac,omitempty"`   // position inside the region / message, per mille
 	Bit    int    `json:"bit,omitempty"`
-	Time   string `json:"time"`          // before | incept | mid | expire | after | at
+	Time   string `json:"time"`         // before | incept | mid | expire | after | at
 	At     int    `json:"at,omitempty"` // seconds after inception for "at"
 }
 
 type Scenario struct {
-	RunSeed    uint64      `json:"run_seed"`
-	Msg        gen.Recipe  `json:"msg"`
-	Key        int         `json:"key"`
-	EpochS     int         `json:"epoch_s"`     // bubble is slept forward by this much first
-	InceptOff  int         `json:"incept_off"`  // inception relative to signing time (signer clock skew), seconds
-	ValidFor   int         `json:"valid_for"`   // expiration - inception, seconds
-	Deliveries []Delivery  `json:"deliveries"`
+	RunSeed    uint64     `json:"run_seed"`
+	Msg        gen.Recipe `json:"msg"`
+	Key        int        `json:"key"`
+	EpochS     int        `json:"epoch_s"`    // bubble is slept forward by this much first
+	InceptOff  int        `json:"incept_off"` // inception relative to signing time (signer clock skew), seconds
+	ValidFor   int        `json:"valid_for"`  // expiration - inception, seconds
+	Deliveries []Delivery `json:"deliveries"`
 }
 
 var regions = []string{"id", "flags", "counts", "question", "body", "sigowner", "sighdr", "sigfixed", "signer", "signature"}
